@@ -583,16 +583,18 @@ def dropLeadingNewlines : Bytes → Bytes
   | [] => []
   | b :: r => if b = 13 || b = 10 then dropLeadingNewlines r else b :: r
 
-/-- hyper reads at most about `maxBuf` bytes ahead of a head it has not finished: the head is judged on
-    that window when it is decided there; a head still undecided after `2 * maxBuf` bytes is `431`;
-    in between the outcome depends on read sizes (`none`) -/
+/-- hyper gives up on a head (431) when its buffer holds `maxBuf` bytes or more and the head is still
+    undecided — but it only looks between reads, and a read fills whatever capacity the buffer has grown
+    to (`BytesMut::reserve` doubles: below `4 * maxBuf`). So: a head decided within the first `maxBuf`
+    bytes is judged as it is; one still undecided after `4 * maxBuf` bytes is `431`; in between the
+    outcome depends on read sizes (`none`; heads of 430 kB and of 1 MB were seen to pass). -/
 def headWindow (buf : Bytes) : Option (P RawHead) :=
   if buf.length ≤ maxBuf then some (parseHead buf)
   else
     match parseHead (buf.take maxBuf) with
     | .more =>
-      if 2 * maxBuf ≤ buf.length then
-        match parseHead (buf.take (2 * maxBuf)) with
+      if 4 * maxBuf ≤ buf.length then
+        match parseHead (buf.take (4 * maxBuf)) with
         | .more => some (.bad 431)
         | _ => none
       else none
